@@ -16,20 +16,21 @@ func main() {
 		fmt.Fprintln(os.Stderr, "usage: govc check <property> [--tier quick|thorough] | dump <func> | list")
 		os.Exit(2)
 	}
-	defer cleanupScratch()
+	rc := 2
 	switch os.Args[1] {
 	case "check":
-		os.Exit(cmdCheck(os.Args[2:]))
+		rc = cmdCheck(os.Args[2:])
 	case "dump":
-		os.Exit(cmdDump(os.Args[2:]))
+		rc = cmdDump(os.Args[2:])
 	case "replay":
-		os.Exit(cmdReplay(os.Args[2:]))
+		rc = cmdReplay(os.Args[2:])
 	case "axioms":
-		os.Exit(cmdAxioms(os.Args[2:]))
+		rc = cmdAxioms(os.Args[2:])
 	default:
 		fmt.Fprintln(os.Stderr, "unknown command", os.Args[1])
-		os.Exit(2)
 	}
+	cleanupScratch()
+	os.Exit(rc)
 }
 
 func hasTag(tags []string, t string) bool {
@@ -235,6 +236,7 @@ func cmdCheck(args []string) int {
 	funcs := map[string]bool{}
 	var solverMs int64
 	nObl, nDis, nCanary, nBounded, nBoundedOK, violations := 0, 0, 0, 0, 0, 0
+	axiomProbesRun := 0
 	backends := map[string]int{}
 	var boundedList []map[string]interface{}
 	var genErrors []string
@@ -243,6 +245,9 @@ func cmdCheck(args []string) int {
 		solverMs += ob.Ms
 		if ob.Kind == "canary" {
 			nCanary++
+			if ob.Name == "govc.axioms/probes" {
+				axiomProbesRun = ob.Cases
+			}
 			if ob.Status != "discharged" {
 				violations++
 				p, _ := maybeReplay(*noEvidence, &Replay{Property: prop, Obligation: ob.Name, Kind: ob.Kind, Description: ob.Descr, Status: "vacuous", SolverOut: ob.Detail, NoInput: true})
@@ -345,6 +350,7 @@ func cmdCheck(args []string) int {
 		"backends":                 backends,
 		"solver_time_s":            float64(solverMs) / 1000.0,
 		"vacuity_canaries":         nCanary,
+		"axiom_probes":             axiomProbesRun,
 		"bounded":                  boundedList,
 		"bounded_total":            nBounded,
 		"bounded_passed":           nBoundedOK,
